@@ -198,6 +198,9 @@ def cons(e, f, d=0):
             return '%s(%s)' % (short(cidn(p)), ','.join(('%d=%s' % (i_ + 1, mode_key(a)) if mode_key(a) is not None else C(a)) for i_, a in enumerate(e[2]) if not is_buf(a)))
         if re.search(r'Iterator::collect|FromIterator::from_iter|Vec::from_iter|convert::Into::into|convert::From::from|IntoIterator::into_iter', e[3]):
             return C(e[2][0]) if e[2] else '?'
+        if re.search(r'grammar::Ident::as_str$', p) and len(e[2]) == 1:
+            # `ident.as_str()` handed to something that wants an `impl Into<Ident>` again: the identifier itself
+            return C(e[2][0])
         if re.search(r'Box::<T>::new$', p):
             return 'Box(%s)' % C(e[2][0])
         return '%s(%s)' % (short(p), ','.join(C(a) for a in e[2]))
@@ -718,6 +721,20 @@ def run(ctx):
                     m = re.match(r'^(grammar::\w+)::(\w+)$', op['fn']['path'])
                     if m and m.group(1) in want:
                         built.setdefault(m.group(1), set()).add(m.group(2))
+    # ... and variants built by a plain constructor / builder of the crate that the parser calls (`Type::ident(..)`,
+    # `t.const_pointer()`): the constructor's own aggregate counts for the parser
+    ctor_callees = set()
+    for f in srcs:
+        for c in f.calls(lambda r: r['path'] in P.fns and r['path'].startswith('grammar::')):
+            g = P.fns[c['path']]
+            if not g.loops() and len(g.exits()) == 1:
+                ctor_callees.add(g.id)
+    for gid in ctor_callees:
+        g = P.fns[gid]
+        for bi in g.normal_blocks():
+            for st in g.blocks[bi]['stmts']:
+                if st['k'] == 'Assign' and st['rv']['k'] == 'Aggregate' and st['rv'].get('agg') == 'Adt' and st['rv']['adt'] in want and st['rv'].get('is_enum'):
+                    built.setdefault(st['rv']['adt'], set()).add(st['rv']['variant'])
     for adt in sorted(want):
         a = P.adts.get(adt)
         vs = [v['name'] for v in a['variants']] if a else []
@@ -737,7 +754,7 @@ def run(ctx):
                         if defaulted:
                             ctx.ob(['C18'], 'R-SLP', 'field-fed|%s.%s|%s' % (short(st['rv']['adt']), fld, cidn(short(f.id))), False,
                                    'field `%s` of %s is defaulted instead of being fed from a parse result' % (fld, st['rv']['adt']), loc(st['span']))
-    ctx.ob(['C18'], 'R-SLP', 'field-fed|census', n >= 20, '%d struct-literal fields of grammar nodes in the parser examined, none defaulted (floor 20)' % n, nontrivial=False)
+    ctx.ob(['C18'], 'R-SLP', 'field-fed|census', n >= 10, '%d struct-literal fields of grammar nodes in the parser examined, none defaulted (floor 10; nodes built with the crate\'s constructors are read by R-GRAM instead)' % n, nontrivial=False)
     # D3 peek/parse agreement
     bad = []
     npk = 0
